@@ -4,7 +4,7 @@ from __future__ import annotations
 import itertools
 import math
 import operator
-from datetime import date, timedelta
+from datetime import date, datetime, timedelta
 
 from mc import core
 from mc.core import Agg, V
@@ -334,7 +334,7 @@ FILL = {
     "float": [("same", 9.5), ("wider", 1j), ("none", None)],
     "complex": [("same", 3j), ("none", None)],
     "str": [("same", "fill"), ("none", None)],
-    "date": [("same", D3), ("none", None)],
+    "date": [("same", D3), ("wider", datetime(2022, 2, 2, 12, 30)), ("none", None)],
 }
 
 
@@ -417,7 +417,11 @@ def unit_na(unit):
                     if gf is None or len(gf) != n:
                         agg.violation(V(f"fillna.{label}", "wrong-shape", c2, want, repr(f)[:60], py))
                         continue
-                    if label == "wider":
+                    if label == "wider" and kind == "date":
+                        # date -> datetime: the kept elements become midnight datetimes, the fill value is stored as it is
+                        want = [x if e is None else datetime(e.year, e.month, e.day) for e in xs]
+                        okv = same_list(gf, want)
+                    elif label == "wider":
                         okv = all((g == w) and (e is not None or same_value(g, w)) for g, w, e in zip(gf, want, xs))
                     else:
                         okv = same_list(gf, want)
@@ -511,6 +515,18 @@ def unit_reduce_hist(unit):
                             else:
                                 v[i] = None; cur[i] = None
                             v[j] = None; cur[j] = None
+                            # further write forms: one position named twice in one assignment (None-ness changing), slices and masks of None
+                            k_ = (i + j) % 4
+                            other = base[(j + 1) % n]
+                            if k_ == 0:
+                                v[[i, i]] = None; cur[i] = None
+                            elif k_ == 1:
+                                v[[j, j]] = [None, other]; cur[j] = other
+                            elif k_ == 2:
+                                v[Vector([i, j, i])] = None; cur[i] = None; cur[j] = None
+                            else:
+                                v[i:i + 2] = [None] * len(cur[i:i + 2]); cur[i:i + 2] = [None] * len(cur[i:i + 2])
+                            case["history"] = case["history"][:3] + [["v[[i, i]] = None", "v[[j, j]] = [None, x]", "v[Vector([i, j, i])] = None", "v[i:i+2] = None"][k_], fn]
                             clean = [x for x in cur if x is not None]
                             if fn in ("min", "max") and not clean:
                                 continue
